@@ -70,6 +70,7 @@ type Case struct {
 	BodyKind int         `json:"body_kind"`
 	BodySize int         `json:"body_size"`
 	BodySeed uint64      `json:"body_seed"`
+	BodySkip int         `json:"body_skip,omitempty"` // bytes of the reader the caller consumed before handing it over (the body is the rest)
 	// Accepted == nil: SendAcceptedCodes is not passed (default: 200).
 	Accepted []int `json:"accepted,omitempty"`
 	// Retry == false: SendRetry is not passed (default: no retries).
@@ -109,6 +110,11 @@ func genCase(t *rapid.T) Case {
 			rapid.IntRange(4000, big),
 		).Draw(t, "bodySize")
 		c.BodySeed = rapid.Uint64Range(1, 1<<40).Draw(t, "bodySeed")
+		// The caller may already have consumed a prefix of the reader (a header it parsed,
+		// say): the body of the request is what is left, as with http.NewRequest.
+		if (c.BodyKind == bkBytes || c.BodyKind == bkStrings || c.BodyKind == bkBuffer) && rapid.IntRange(0, 3).Draw(t, "consumed") == 0 {
+			c.BodySkip = rapid.IntRange(1, 64).Draw(t, "skip")
+		}
 	}
 	seg := rapid.OneOf(
 		rapid.StringMatching(`[a-z0-9._~-]{1,8}`),
@@ -512,7 +518,13 @@ func isDialError(err error) bool {
 }
 
 func run(c Case) pbt.Verdict {
-	body := bodyBytes(c.BodySeed, c.BodySize)
+	skip := c.BodySkip
+	if skip < 0 || (c.BodyKind != bkBytes && c.BodyKind != bkStrings && c.BodyKind != bkBuffer) {
+		skip = 0
+	}
+	full := bodyBytes(c.BodySeed, c.BodySize+skip)
+	body := full[skip:]
+	consume := func(r io.Reader) { io.CopyN(io.Discard, r, int64(skip)) }
 	fs := &fakeServer{script: c.Script, bodySize: c.BodySize, conns: map[string]int{}}
 	fakenet.InstallDefault()
 	srv, lerr := fakenet.Serve(fs)
@@ -524,11 +536,17 @@ func run(c Case) pbt.Verdict {
 	var opts []httputil.SendOption
 	switch c.BodyKind {
 	case bkBytes:
-		opts = append(opts, httputil.SendBody(bytes.NewReader(body)))
+		r := bytes.NewReader(full)
+		consume(r)
+		opts = append(opts, httputil.SendBody(r))
 	case bkBuffer:
-		opts = append(opts, httputil.SendBody(bytes.NewBuffer(append([]byte(nil), body...))))
+		r := bytes.NewBuffer(append([]byte(nil), full...))
+		consume(r)
+		opts = append(opts, httputil.SendBody(r))
 	case bkStrings:
-		opts = append(opts, httputil.SendBody(strings.NewReader(string(body))))
+		r := strings.NewReader(string(full))
+		consume(r)
+		opts = append(opts, httputil.SendBody(r))
 	case bkFile:
 		f, err := os.CreateTemp("", "c34-body-")
 		if err != nil {
@@ -746,6 +764,9 @@ func run(c Case) pbt.Verdict {
 		if c.BodySize > 0 {
 			cl = append(cl, "retried-with-body")
 		}
+		if skip > 0 {
+			cl = append(cl, "retried-with-partly-consumed-reader")
+		}
 	}
 	if attempts == want.attempts && c.Retry && attempts == c.Max+1 && retryableStep(c, c.Script[attempts-1]) {
 		cl = append(cl, "backoff-exhausted")
@@ -780,7 +801,7 @@ func minInt(a, b int) int {
 func TestProp(t *testing.T) {
 	pbt.Main(t, pbt.Spec{
 		ID: "C34",
-		Rule: "generated request (6 methods, URL with escaped segments and query, 0-3 headers, body none/bytes.Reader/bytes.Buffer/strings.Reader/os.File/opaque io.Reader of 0-256 KiB, accepted-code set, retry option with 0-3 retries and extra retry codes) sent with httputil.Send to a scripted server: per attempt a status out of 12 codes (optionally Connection: close, optional response body), a connection cut before/in the middle of/after the request body, or a client-side dial failure; every received request is compared with the original (method, URL, headers, body length+hash) and the result and attempt count are compared with a model of the documented retry rule; non-trivial = Send made at least two attempts; distinct by case hash",
+		Rule: "generated request (6 methods, URL with escaped segments and query, 0-3 headers, body none/bytes.Reader/bytes.Buffer/strings.Reader/os.File/opaque io.Reader of 0-256 KiB (one in four of the in-memory readers is handed over with a prefix of 1-64 bytes already consumed: the body is the rest), accepted-code set, retry option with 0-3 retries and extra retry codes) sent with httputil.Send to a scripted server: per attempt a status out of 12 codes (optionally Connection: close, optional response body), a connection cut before/in the middle of/after the request body, or a client-side dial failure; every received request is compared with the original (method, URL, headers, body length+hash) and the result and attempt count are compared with a model of the documented retry rule; non-trivial = Send made at least two attempts; distinct by case hash",
 		Assumptions: []string{
 			"the scripted HTTP server and the wrapping RoundTripper are trusted; every cut is made to arrive on a fresh connection (the previous answer carries Connection: close) so that net/http's own replay of idempotent requests on re-used connections does not add attempts Send does not know about",
 			"the server reads the whole request body before answering a status, so the answer is deterministic",
